@@ -7,6 +7,8 @@ def main():
         print('usage: check <property id> [quick|thorough] [--replay path]')
         return 2
     pid = sys.argv[1].upper()
+    from harness import core
+    core.ensure_repo_import()
     mod = importlib.import_module(f'harness.props.{pid.lower()}')
     return mod.CHECK.main(sys.argv[2:])
 
